@@ -8,6 +8,7 @@ import Rox.Lemmas.Decode
 import Rox.Lemmas.MirrorAll
 import Rox.Lemmas.GrammarTables
 import Rox.Props.C01
+import Rox.Lemmas.TextEntityMany
 
 namespace Rox.Props.C04
 open Rox Rox.Spec Rox.Lemmas
@@ -48,5 +49,43 @@ theorem accepted_text_runs_decoded (txt : Bytes) (hv : ValidUtf8 txt) (opt : Opt
           Rox.Spec.Canon4.expectAllY 0 1 (Rox.Spec.Mirror.docTree x) :=
   Rox.Lemmas.accepted_tree_mirrors Generated.tables C01.generated_tables_ok
     Rox.Lemmas.generated_tables_grammar txt hv opt hdtd d h
+
+/-- **A run of character data with any number of entity references is one text node** (builder level,
+entity depth 0, `allow_dtd = true`): a text token written as plain pieces and references in any
+number and order,
+
+    t0 &n1; t1 &n2; t2 … &nk; tk        (k ≥ 0; the same entity may occur several times)
+
+where every `ti` and every referenced entity's replacement text is plain character data (no `&`, no
+`<`; CR and LF allowed), is turned — whenever `process_text` succeeds, starting with no text
+pending — into exactly ONE new text node, created when the run is closed, whose value is
+
+    lineEnds t0 ++ lineEnds e1 ++ lineEnds t1 ++ … ++ lineEnds ek ++ lineEnds tk
+
+(`Rox.Lemmas.TextEnt.expectedText`; line ends are normalised per piece, as XML 2.11 prescribes for
+each entity on its own): the replacement texts contribute to the run as if they stood in place of the
+references, nothing is dropped or duplicated and the pieces are not separate nodes. `RefsOk` / `ValsOk`
+say what the reference lexer reads at each `&` and that each value tokenises to one text token.
+`Rox.Lemmas.TextManyExample` instantiates every hypothesis on
+`<!DOCTYPE r [<!ENTITY e 'x\ry'><!ENTITY f 'z'>]><r>a\r\nb&e;&f;c&e;\r</r>` with the tables of the
+build. The generalisation of `text_run_decoded` to runs with references (`Lemmas/TextEntityMany.lean`,
+which also proves what else is left unchanged: entity table, attributes, namespaces, open elements). -/
+theorem text_run_with_references_is_one_node (T : Tables) (txt : Bytes) (lower2 : Token → Ctx → Res Ctx)
+    (c c' c0 : Ctx) (text : Span) (range : Range) (t0 : Bytes) (segs : List Rox.Lemmas.Seg)
+    (hr : range = (text.off, text.off + text.bytes.length))
+    (hs : text.bytes = sliceBytes txt text.off (text.off + text.bytes.length))
+    (hd : c.ld.depth = 0)
+    (hval : text.bytes = Rox.Lemmas.valueOf t0 segs)
+    (hp : Rox.Lemmas.litOk t0) (hsegs : Rox.Lemmas.SegsOk c.entities segs)
+    (hcr : Rox.Lemmas.RefsOk T txt (text.off + t0.length) segs)
+    (hvs : Rox.Lemmas.TextEnt.ValsOk T txt segs)
+    (hat : c.afterText = []) (hne : Rox.Lemmas.TextEnt.expectedText t0 segs ≠ [])
+    (h : processText T txt (tokenStep T txt lower2) c text range = .ok c')
+    (hreset : c'.resetAfterText = .ok c0) :
+    c0.afterText = [] ∧ c0.doc.nodes.size = c.doc.nodes.size + 1 ∧
+    ∃ n X, c0.doc.nodes[c.doc.nodes.size]? = some n ∧ n.kind = .text X ∧
+      X.bytes = Rox.Lemmas.TextEnt.expectedText t0 segs :=
+  Rox.Lemmas.processText_entities_node T txt lower2 c c' c0 text range t0 segs hr hs hd hval hp hsegs
+    hcr hvs hat hne h hreset
 
 end Rox.Props.C04
